@@ -189,6 +189,13 @@ def rule_aliasing(ctx: Ctx, repo: Repo) -> None:
 
 
 def run(ctx: Ctx, repo: Repo, tier: str) -> None:
+    # concrete small values first: they decide also when a new code path is beyond the abstract scenarios below
+    from .concrete_infer import concrete_rules
+    concrete_err = None
+    try:
+        concrete_rules(ctx, repo, tier, tightness="R-C05.9")
+    except AnalysisError as e:
+        concrete_err = e  # the abstract scenarios below still decide their clauses; re-raised at the end if they are silent
     ctx.trust("typing.Any admits everything; Callable, Type[C], Iterator[T] are the documented hints for callables, class objects and generators")
     rule_get_type(ctx, repo)
     rule_aliasing(ctx, repo)
@@ -201,3 +208,5 @@ def run(ctx: Ctx, repo: Repo, tier: str) -> None:
     infer_no_memory(ctx, repo, "R-C05.7")
     from .compat_rules import compat_predicates
     compat_predicates(ctx, repo, "R-C05.8", ("types_equal",))
+    if concrete_err is not None:
+        raise concrete_err
